@@ -94,6 +94,19 @@ Theorem C06_echo_chunks_nonempty : forall ls lines, echo_source ls = Ok lines ->
 Proof. exact echo_chunks_nonempty. Qed.
 Print Assumptions C06_echo_chunks_nonempty.
 
+(* all yielded chunks but the last end with a line feed - unless a newline token is a lone carriage return, which
+   never happens for a source of the dialect *)
+Theorem C06_echo_chunks_end_lf : forall ls ts, model_lex ls = Ok ts -> no_lone_cr_newline ts ->
+  Forall ends_lf (removelast (echo ts)).
+Proof. exact echo_chunks_end_lf. Qed.
+Print Assumptions C06_echo_chunks_end_lf.
+
+Theorem C06_echo_chunks_end_lf_dialect : forall ls ts ss,
+  Forall ends_lf (removelast ls) -> Forall byte (concat ls) -> spec_lex (concat ls) = Some ss ->
+  model_lex ls = Ok ts -> Forall ends_lf (removelast (echo ts)).
+Proof. exact echo_chunks_end_lf_dialect. Qed.
+Print Assumptions C06_echo_chunks_end_lf_dialect.
+
 (* the written text of a source of the dialect has no carriage return outside CR LF *)
 Theorem C06_echo_crlf_only : forall src ss, Forall byte src -> spec_lex src = Some ss ->
   exists lines, echo_source [src] = Ok lines /\ crlf_only (concat lines) = true.
